@@ -101,7 +101,7 @@ static void run() {
     auto &a = vp::args();
     vp::CaseScope scope([] { return ser_case(g_cur); });
     vp::stats().rule = "enum/random: all 18 emit entry points (4 requests, ACK with/without payload, 11 error responses, 2 meta) x {serial, tcp} x {8, 16}-bit memory x request kinds, with addresses and "
-                       "sequence numbers at the edges, payloads rich in SLIP control octets, total lengths across the varint boundaries 127/128 and 16383/16384; oracle = reference encoder octets + "
+                       "sequence numbers at the edges, payloads rich in SLIP control octets, total lengths across the varint boundaries 127/128 and 16383/16384 and payloads across 2^16 and 2^17 octets; oracle = reference encoder octets + "
                        "the library's own receiver reports the same fields; request sequence numbers increase by one modulo 2^16 (session of 70000 requests)";
     vp::stats().exhaustive = false;
     vp::Rng rng(a.seed * 15013 + a.shard);
@@ -124,7 +124,8 @@ static void run() {
             if (vp::too_many_failures()) return;
         }
     // lengths across varint boundaries (total frame length 127/128, 16383/16384; serial and tcp)
-    for (int serial = 0; serial < 2; serial++) for (size_t total : {126u, 127u, 128u, 129u, 16382u, 16383u, 16384u, 16385u}) for (int entry : {2, 3, 4}) {
+    // ... and across 2^16 / 2^17 octets of payload (a length kept in 16 bits shows here)
+    for (int serial = 0; serial < 2; serial++) for (size_t total : {126u, 127u, 128u, 129u, 16382u, 16383u, 16384u, 16385u, 65534u + 16u, 65535u + 16u, 65536u + 16u, 65537u + 16u, 65538u + 16u, 131072u + 16u, 131074u + 16u}) for (int entry : {2, 3, 4}) {
         if (idx++ % a.nshards != a.shard) continue;
         size_t hdr = 12 + (serial ? 4 : 0);
         size_t pl = total - hdr; if ((entry == 3) && (pl & 1)) pl--;
